@@ -5,6 +5,7 @@
 import Driver.Proto
 import DecimalModel.Spec.IEEE
 import DecimalModel.Context
+import Driver.OpsW
 
 namespace Driver
 open Decimal
@@ -127,7 +128,8 @@ def binOp (env : Array Dec) (name : String) (zs xs ys : String) : Step :=
       | "mul" => Spec.mulSV z.mode p sx sy
       | _ => Spec.quoSV z.mode p sx sy
     { env := env.set! zi z', outcome := oc,
-      spec := andSpec (expectRecv zi r p z.mode) (andSpec (frameOk env [zi]) canonicalAll),
+      -- three voices: specification, L1 model (env), and the word-level model W run on the pre-state words
+      spec := andSpec (expectRecv zi r p z.mode) (andSpec (wSpecBin name zi xi yi z x y) (andSpec (frameOk env [zi]) canonicalAll)),
       tags := name :: resTags r [x, y] ++ aliasTags [zi, xi, yi] }
   | _, _, _ => badStep env "binop vars"
 
